@@ -4,6 +4,8 @@ use crate::engine::{CaseResult, Ctx};
 
 pub mod c01;
 pub mod c03;
+pub mod c04;
+pub mod c06;
 pub mod c07;
 pub mod c12;
 pub mod c13;
@@ -14,12 +16,14 @@ pub mod c17;
 pub mod c18;
 pub mod c19;
 
-pub const ALL: &[&str] = &["C01", "C03", "C07", "C12", "C13", "C14", "C15", "C16", "C17", "C18", "C19"];
+pub const ALL: &[&str] = &["C01", "C03", "C04", "C06", "C07", "C12", "C13", "C14", "C15", "C16", "C17", "C18", "C19"];
 
 pub fn run(c: &Ctx) -> bool {
     match c.prop.as_str() {
         "C01" => c01::run(c),
         "C03" => c03::run(c),
+        "C04" => c04::run(c),
+        "C06" => c06::run(c),
         "C07" => c07::run(c),
         "C12" => c12::run(c),
         "C13" => c13::run(c),
@@ -38,6 +42,8 @@ pub fn replay(prop: &str, kind: &str, case: &Value) -> Option<CaseResult> {
     match prop {
         "C01" => c01::replay(kind, case),
         "C03" => c03::replay(kind, case),
+        "C04" => c04::replay(kind, case),
+        "C06" => c06::replay(kind, case),
         "C07" => c07::replay(kind, case),
         "C12" => c12::replay(kind, case),
         "C13" => c13::replay(kind, case),
